@@ -863,6 +863,33 @@ def opC06Fifo : List String → Res
     | none => bad
   | _ => bad
 
+/-- c06.queue <nsmall> <slowlines>: one file that is still being read (registered first, open,
+    empty) and `nsmall` one-line files; as many as fit register before the aggregator starts,
+    the others wait for room in `NextLinesCh`; then the slow file delivers its lines and ends.
+    The model runs the transition system under the eager schedule. -/
+def opC06Queue : List String → Res
+  | [ns, sl] => match ns.toNat?, sl.toNat? with
+    | some ns, some sl =>
+      let sizes := sl :: List.replicate ns 1
+      let fuel := 8 * (ns + sl) + 64
+      let run (st : Option Agg) (ls : List ALabel) : Option Agg := ls.foldl (fun a l => a.bind (aggStep · l)) st
+      let settle (st : Option Agg) : Option Agg := st.map fun x => (aggSettle fuel x []).1
+      let early := (List.range ns).map (· + 1) |>.take (nextCap - 1)
+      let late := (List.range ns).map (· + 1) |>.drop (nextCap - 1)
+      let st0 := run (some (aggInit sizes)) (ALabel.register 0 :: early.flatMap fun i => [.register i, .push i, .close i])
+      let st1 := late.foldl (fun a i => settle (run (settle a) [.register i, .push i, .close i])) st0
+      let st2 := settle (run (settle st1) (List.replicate sl (ALabel.push 0) ++ [.close 0]))
+      match st2 with
+      | some st =>
+        let got := (st.rds.map (·.consumed)).foldl (· + ·) 0
+        let total := sizes.foldl (· + ·) 0
+        { m := (if st.done ∧ got = total then "terminated" else "stuck") ++ s!";count={got}",
+          s := s!"terminated;count={total}",
+          t := joinWith "," (["multi-file", "rotation"] ++ (if late.isEmpty then [] else ["queue-full"])) }
+      | none => { m := "script-rejected", s := "-" }
+    | _, _ => bad
+  | _ => bad
+
 /-- c06.merge <nservers> <steps>: the client's global group after every server's partials -/
 def opC06Merge : List String → Res
   | [_, steps] =>
@@ -1133,6 +1160,7 @@ def dispatch (line : String) : Res :=
   | "c05.agg" :: a => opC05Agg a
   | "c06.fifo" :: a => opC06Fifo a
   | "c06.merge" :: a => opC06Merge a
+  | "c06.queue" :: a => opC06Queue a
   | "c07.multi" :: a => opC07Multi a
   | "c07.sched" :: a => opC07Sched a
   | "c08.perm" :: a => opC08Perm a
